@@ -99,6 +99,32 @@ def b_window():
             f"def window_axis : Int := {axis}\n")
 
 
+def b_apply_mask_where():
+    """the `torch.where` inside `T.apply_mask` (what `estimate_acs_image` masks the k-space with)"""
+    fn = _fn(T, "apply_mask")
+    wh = [n for n in ast.walk(fn) if isinstance(n, ast.Call) and ast.unparse(n.func) == "torch.where" and len(n.args) == 3]
+    if len(wh) != 1:
+        raise Untranslatable(f"{len(wh)} torch.where calls in apply_mask")
+    cond, x, y = wh[0].args
+    node = x
+    while isinstance(node, ast.Call) and isinstance(node.func, ast.Attribute) and node.func.attr == "to":
+        node = node.func.value
+    zero = None
+    if isinstance(node, ast.Call) and ast.unparse(node.func) in ("torch.tensor", "torch.as_tensor") and node.args:
+        a = node.args[0]
+        zero = _num(a.elts[0]) if isinstance(a, (ast.List, ast.Tuple)) and len(a.elts) == 1 else _num(a)
+    elif _num(node) is not None:
+        zero = _num(node)
+    if zero is None or zero != 0:
+        raise Untranslatable(f"apply_mask: where-value `{ast.unparse(x)[:50]}` is not the constant 0")
+    tgt = [ast.unparse(st.targets[0]) for st in all_stmts(fn) if isinstance(st, ast.Assign) and st.value is wh[0]]
+    rets = [ast.unparse(r.value) for r in ast.walk(fn) if isinstance(r, ast.Return) and r.value is not None]
+    if not tgt or tgt[0] not in rets:
+        raise Untranslatable("apply_mask does not return the torch.where result when return_mask is false")
+    return ("/-- translated from `apply_mask`: (condition, value where it holds, value elsewhere) -/\n"
+            f"def acs_mask_where : String × String × String := ({_s(ast.unparse(cond))}, \"0\", {_s(ast.unparse(y))})\n")
+
+
 WINDOW_FALLBACK = ("def window_linspace : Int × Int × String × String := windowLinspace\n"
                    "def window_guard : List String := windowGuardClauses\n"
                    "def window_products : String × String := windowProducts\n"
@@ -328,6 +354,7 @@ CHOICE_FALLBACK = ("def engine_model_choice (multicoil has2d has3d : Bool) (ndim
 
 TABLES = [
     ("gaussian_window", b_window, WINDOW_FALLBACK),
+    ("acs_mask_where", b_apply_mask_where, "def acs_mask_where : String × String × String := applyMaskWhere\n"),
     ("forward_branches", b_forward_branches, FORWARD_FALLBACK),
     ("sens_effects", b_effects, "def sens_effects : List (String × String × String) := []\n"),
     ("option_forwarding", b_forwarding, "def ctor_sites : List (String × List (String × String)) := []\n"
